@@ -534,11 +534,9 @@ fn containers(n: usize, big: bool, w: &mut NdjsonWriter, rng: &mut ChaCha8Rng) -
         emit_uc(w, hrp, &body, rng, &mut counts);
     }
     // sizes around the ends of the jumble domain: one Sapling/Orchard-free container made of unknown items
-    let mut sizes: Vec<usize> = vec![16, 18, 40, 46, 47, 48, 49, 50, 64, 127, 128, 129];
+    let mut sizes: Vec<usize> = vec![16, 18, 40, 46, 47, 48, 49, 50, 64, 127, 128, 129, 70_000];
     if big {
         sizes.extend_from_slice(&[2_621_469, 2_621_476, 2_621_529, JUMBLE_MAX - 1, JUMBLE_MAX, JUMBLE_MAX + 1]);
-    } else {
-        sizes.extend_from_slice(&[70_000]);
     }
     for size in sizes {
         let pick = ["addr", "fvk", "ivk"][rng.gen_range(0..3)];
